@@ -60,6 +60,7 @@ class ScopeHistory(RuleBasedStateMachine):
         self.u = 0
         self.checked_upto = -1
         self.in_func = False
+        self.reentrant = False
 
     @initialize(P=st.integers(2, 4), ws=st.sampled_from([2, 2, 3, 4]), in_func=st.booleans())
     def init(self, P, ws, in_func):
@@ -148,6 +149,14 @@ class ScopeHistory(RuleBasedStateMachine):
         # loops inside a defeat function whose bodies own an array and end in an always-exiting preempt
         self.segments.append('if (%s) { try { !dl(ph + 2, %d); write(\'l\'); } %s { write(\'H\'); } }' % (self.guard(k), bad, kind))
 
+    @rule(k=SMALL)
+    def reenter_entry(self, k):
+        # the entry point is an ordinary you-function: a nested activation (it returns early, holding an array) must leave
+        # the caller's frame and arrays as they were
+        self.reentrant = True
+        u = self.uid()
+        self.segments.append('if (%s) { int[] q%d = [ph, 7]; @is_you(100 + ph); write(q%d[1]); }' % (self.guard(k), u, u))
+
     @rule(k=SMALL, f=st.sampled_from(['early', 'deep', 'sum']))
     def call_with_arrays(self, k, f):
         call = {'early': 'early(ph)', 'deep': 'deep(%d)' % k, 'sum': 'sum([ph, %d, g0])' % k}[f]
@@ -163,9 +172,10 @@ class ScopeHistory(RuleBasedStateMachine):
     def source(self, periods):
         body = '\n'.join('      ' + s for s in self.segments)
         loop = '  for (int it = 0; it < n; it += 1) {\n    int ph = it %% %d;\n    write(\'|\');\n    {\n%s\n    }\n    g0 += 1;\n  }\n' % (self.P, body)
+        entry_guard = '  if (n >= 100) { int[] rr = [n, 3]; byte rv[n - 99]; rv[0] = \'v\'; write(rr[1]); return; }\n' if self.reentrant else ''
         if self.in_func:
-            return PRELUDE + 'empty @run(int n) {\n  int[] keep = [n, 9];\n%s  write(keep[1]);\n}\nempty @is_you(int n) {\n  int[] outer = [n, 8];\n  @run(n);\n  write(outer[1]); write(g0);\n}\n' % loop
-        return PRELUDE + 'empty @is_you(int n) {\n  int[] keep = [n, 9];\n%s  write(keep[1]); write(g0);\n}\n' % loop
+            return PRELUDE + 'empty @run(int n) {\n  int[] keep = [n, 9];\n%s  write(keep[1]);\n}\nempty @is_you(int n) {\n%s  int[] outer = [n, 8];\n  @run(n);\n  write(outer[1]); write(g0);\n}\n' % (loop, entry_guard)
+        return PRELUDE + 'empty @is_you(int n) {\n%s  int[] keep = [n, 9];\n%s  write(keep[1]); write(g0);\n}\n' % (entry_guard, loop)
 
     def fail(self, sig, msg, src, n):
         type(self).last_failure = {'kind': 'machine', 'source': src, 'argv': [n], 'ws': self.ws, 'message': msg + '\n' + src, 'signature': 'scope-machine:' + sig}
